@@ -492,7 +492,7 @@ fn c01(thorough: bool) -> Suite {
         1,
         1,
         if thorough { &CAPS4 } else { &CAPS3 },
-        if thorough { &[Class::DL, Class::DP, Class::B1, Class::DZ] } else { &[Class::DL] },
+        if thorough { &[Class::DL, Class::DP, Class::D4, Class::B1, Class::DZ] } else { &[Class::DL, Class::DP, Class::D4] },
         &all_flavours(2),
         &unb_sp(),
     ));
@@ -533,6 +533,26 @@ fn c01(thorough: bool) -> Suite {
             &[env(2, 1, None, Some(3))],
         ));
     }
+    // a value handed into a future / stream wait that is then dropped, never
+    // polled again, or polled late
+    ps.extend(product(
+        "c01-futdrop",
+        &[
+            seqs_upto(&[Op::Send, Op::TrySend, Op::SendT(2)], 2),
+            vec![
+                vec![Op::FRecv(0), Op::Poll(0, 0), Op::FDrop(0)],
+                vec![Op::FRecv(0), Op::Poll(0, 0), Op::TryRecv, Op::Poll(0, 0)],
+                vec![Op::FStream(0), Op::Poll(0, 0), Op::FDrop(0), Op::TryRecv],
+                vec![Op::FStream(0), Op::Poll(0, 0), Op::Poll(0, 0), Op::Poll(0, 0)],
+            ],
+        ],
+        &[Cap::B(0), Cap::B(1)],
+        &[Class::D4, Class::DP, Class::DL],
+        &[vec![(S, S), (A, A)]],
+        &[(S, Conv::Clone)],
+        &[env(2, 1, None, pb2(thorough))],
+        true,
+    ));
     // 3 threads: two producers + one consumer doing two receives; one
     // producer doing two sends + two consumers
     ps.extend(product(
@@ -836,6 +856,24 @@ fn c05(thorough: bool) -> Suite {
         &[vec![(A, A), (S, S)], vec![(A, A), (A, A)]],
         &[(S, Conv::Clone)],
         &[env(2, 1, None, UNB)],
+        false,
+    ));
+    ps.extend(product(
+        "c05-futr",
+        &[
+            seqs_upto(&[Op::Send, Op::TrySend, Op::SendT(2), Op::Close(Side::S)], 1),
+            vec![
+                vec![Op::FRecv(0), Op::Poll(0, 0), Op::FDrop(0)],
+                vec![Op::FRecv(0), Op::Poll(0, 0), Op::Poll(0, 1), Op::FDrop(0)],
+                vec![Op::FStream(0), Op::Poll(0, 0), Op::FDrop(0)],
+                vec![Op::FRecv(0), Op::FDrop(0), Op::TryRecv],
+            ],
+        ],
+        &[Cap::B(0), Cap::B(1)],
+        if thorough { classes } else { &[Class::D4, Class::DP, Class::DL] },
+        &[vec![(S, S), (A, A)], vec![(A, A), (A, A)]],
+        &[(S, Conv::Clone)],
+        &[env(2, 1, None, pb2(thorough))],
         false,
     ));
     Suite {
@@ -1693,7 +1731,7 @@ fn c13(thorough: bool) -> Suite {
             seqs(&[Op::Recv, Op::TryRecv, Op::RecvT(1), Op::Drain(VecState::Spare), Op::RecvRepoll, Op::Close(Side::R), Op::Len(Side::R)], 1),
         ],
         &[Cap::B(0), Cap::B(1)],
-        &[Class::D4, Class::DL],
+        &[Class::D4, Class::DP, Class::DL],
         &[vec![(S, S), (S, S)], vec![(S, S), (A, A)]],
         &[(S, Conv::Clone)],
         &envs,
@@ -1706,7 +1744,7 @@ fn c13(thorough: bool) -> Suite {
             seqs(&rt, 1),
         ],
         &[Cap::B(0), Cap::B(1)],
-        &[Class::D4, Class::DL],
+        &[Class::D4, Class::DP, Class::DL],
         &[vec![(S, S), (S, S)], vec![(A, A), (S, S)]],
         &[(S, Conv::Clone)],
         &envs,
